@@ -59,15 +59,16 @@ def defs_reaching(g, name, target):
     return out, target in r
 
 
-def reach_noeffect(g, starts, via):
+def reach_noeffect(g, starts, via, stop=()):
     """nodes reachable from `starts` on paths on which no node of `via` takes
-    effect (a via node may still be left through its exception edge)"""
+    effect (a via node may still be left through its exception edge) and
+    which do not enter a node of `stop`"""
     via = set(via)
     seen = set()
     todo = list(starts)
     while todo:
         n = todo.pop()
-        if n in seen:
+        if n in seen or n in stop:
             continue
         seen.add(n)
         for e in g.succ[n]:
@@ -81,12 +82,593 @@ def iter_start(g, head):
     return loop_slice(g, head)[0]
 
 
-def enclosing_for(g, node, name):
-    for h in reversed(node.loops):
-        hn = g.nodes[h]
-        if hn.kind == 'for' and name in stores_in_target(hn.ast.target):
-            return hn
+STARTUP = ('__init__', 'initialize', '_configure', 'configure')
+QUIET   = ('self._log.', 'self._prof.', 'self._rep.', 'self._logger.')
+PURE    = ('len', 'bool', 'int', 'str', 'list', 'tuple', 'sorted', 'reversed',
+           'enumerate', 'iter', 'set', 'dict', 'min', 'max', 'range', 'zip',
+           'isinstance', 'repr', 'id')
+MUTATORS = ('append', 'extend', 'insert', 'pop', 'remove', 'clear', 'sort',
+            'reverse', 'update', 'setdefault', 'popitem', 'add', 'discard',
+            'appendleft', 'popleft')
+
+# facts about the scheduler classes, collected once per run (see _setup):
+#   funcs    id(function ast) -> (FuncInfo, [concrete classes that see it])
+#   written  attribute -> names of the non start-up methods that store
+#            `self.<attribute>` (plain / augmented assignment, del)
+#   rebound  as written, without the augmented assignments
+#   ctor     attribute -> values assigned to it by the start-up methods
+_CTX = {'prog': None, 'funcs': {}, 'written': {}, 'rebound': {}, 'ctor': {}}
+_VIEWS = {}
+
+
+def _setup(prog):
+    funcs, written, rebound, ctor = {}, {}, {}, {}
+    base = prog.cls(*BASE)
+    for rel, cname in (BASE, RR, BF):
+        K = prog.cls(rel, cname)
+        for mname, m in I.class_methods(prog, K, stop_at=base).items():
+            ent = funcs.setdefault(id(m.node), (m, []))
+            if K not in ent[1]:
+                ent[1].append(K)
+        for mname, m in K.methods.items():
+            aug = {id(x.target) for x in ast.walk(m.node)
+                   if isinstance(x, ast.AugAssign)}
+            for x in ast.walk(m.node):
+                if isinstance(x, ast.Assign) and mname in STARTUP:
+                    for t in x.targets:
+                        if is_self_attr(t):
+                            ctor.setdefault(t.attr, []).append(x.value)
+                if is_self_attr(x) and isinstance(x.ctx, (ast.Store, ast.Del)) \
+                        and mname not in STARTUP:
+                    written.setdefault(x.attr, set()).add(mname)
+                    if id(x) not in aug:
+                        rebound.setdefault(x.attr, set()).add(mname)
+    _CTX.update(prog=prog, funcs=funcs, written=written, rebound=rebound,
+                ctor=ctor)
+    _VIEWS.clear()
+
+
+def is_container_attr(attr):
+    """self.<attr> is created as a container by the start-up methods and is
+    never re-assigned afterwards (only mutated in place): a local alias of it
+    denotes the same object as the attribute, whatever happens in between"""
+    vals = _CTX['ctor'].get(attr)
+    return bool(vals) and attr not in _CTX['rebound'] and all(
+        is_empty_ctor(v) or isinstance(v, (ast.List, ast.Dict, ast.Set))
+        for v in vals)
+
+
+def is_quiet_call(c):
+    return isinstance(c, ast.Call) and dotted(c.func).startswith(QUIET)
+
+
+def is_quiet_stmt(s):
+    """logging / profiling / reporting statement: no effect on the property"""
+    return isinstance(s, ast.Expr) and (is_quiet_call(s.value) or
+                                        isinstance(s.value, ast.Constant))
+
+
+def first_stmt(body):
+    for s in body:
+        if not is_quiet_stmt(s):
+            return s
     return None
+
+
+def assigned_value(stmt, name):
+    """value expression bound to the plain name by an assignment statement:
+    `name = v`, `a = name = v`, `name, b = v, w`  (else None)"""
+    if not isinstance(stmt, ast.Assign):
+        return None
+    for t in stmt.targets:
+        if isinstance(t, ast.Name) and t.id == name:
+            return stmt.value
+        if isinstance(t, (ast.Tuple, ast.List)) and \
+                isinstance(stmt.value, (ast.Tuple, ast.List)) and \
+                len(t.elts) == len(stmt.value.elts) and \
+                not any(isinstance(e, ast.Starred)
+                        for e in t.elts + stmt.value.elts):
+            for e, v in zip(t.elts, stmt.value.elts):
+                if isinstance(e, ast.Name) and e.id == name:
+                    return v
+    return None
+
+
+def between(g, a, b):
+    """cfg nodes which lie on some path from (after) node a to node b that
+    does not pass a again - b itself only if it lies on such a cycle"""
+    fwd = g.reachable(nsucc(g, a), skip_nodes={a})
+    out = {n for n in fwd if n != b and b in g.reachable(n, skip_nodes={a})}
+    if b in fwd and b in g.reachable(nsucc(g, b), skip_nodes={a}):
+        out.add(b)
+    return out
+
+
+def attr_writes(g, attr):
+    out = set()
+    for n in g.nodes:
+        if n.ast is None or n.kind in ('while', 'dispatch', 'handler', 'with'):
+            continue
+        roots = [n.ast.target] if n.kind == 'for' else [n.ast]
+        for r in roots:
+            if any(is_self_attr(x, attr) and
+                   isinstance(x.ctx, (ast.Store, ast.Del)) for x in walk(r)):
+                out.add(n.id)
+    return out
+
+
+def loud_calls(g, nid):
+    """calls of a cfg node other than logging / profiling and pure builtins"""
+    n = g.nodes[nid]
+    return [c for c in I.stmt_calls(n) if not is_quiet_call(c) and
+            dotted(c.func) not in PURE]
+
+
+def snapshot_fresh(g, attr, d, at):
+    """a value read from self.<attr> at node d is still current at node `at`:
+    no store to the attribute and - if other methods store it - no call on a
+    path between the two"""
+    mid = between(g, d, at)
+    if mid & attr_writes(g, attr):
+        return False
+    fi = _CTX['funcs'].get(id(g.func))
+    own = fi[0].name if fi else None
+    if _CTX['written'].get(attr, set()) - {own}:
+        return not any(loud_calls(g, m) for m in mid)
+    return True
+
+
+def _getter_expr(g, call):
+    """`self.m(a, b)` where m (the same function for every concrete class)
+    consists of `return <expr>` only: that expression, with the parameters
+    replaced by the arguments"""
+    if not (isinstance(call.func, ast.Attribute) and
+            isinstance(call.func.value, ast.Name) and
+            call.func.value.id == 'self'):
+        return None
+    fi = _CTX['funcs'].get(id(g.func))
+    prog = _CTX['prog']
+    if fi is None or prog is None:
+        return None
+    f, concretes = fi
+    callees = {id(c.node): c for c in
+               [prog.resolve_call(f, call, K) for K in concretes]
+               if c is not None}
+    if len(callees) != 1 or len(concretes) != len(
+            [1 for K in concretes if prog.resolve_call(f, call, K)]):
+        return None
+    callee = list(callees.values())[0]
+    ret = first_stmt(callee.node.body)
+    if not isinstance(ret, ast.Return) or ret.value is None or \
+            [s for s in callee.node.body if not is_quiet_stmt(s)] != [ret]:
+        return None
+    a = callee.node.args
+    if a.vararg or a.kwarg or a.kwonlyargs or a.posonlyargs:
+        return None
+    params = [x.arg for x in a.args][1:]
+    if len(call.args) > len(params) or any(isinstance(x, ast.Starred)
+                                           for x in call.args):
+        return None
+    bind = dict(zip(params, call.args))
+    for k in call.keywords:
+        if k.arg is None or k.arg not in params or k.arg in bind:
+            return None
+        bind[k.arg] = k.value
+    defaults = dict(zip(params[len(params) - len(a.defaults):], a.defaults))
+    for p in params:
+        if p not in bind:
+            if p not in defaults:
+                return None
+            bind[p] = defaults[p]
+    local = {x.id for x in ast.walk(g.func) if isinstance(x, ast.Name) and
+             isinstance(x.ctx, (ast.Store, ast.Del))}
+    local |= {x.arg for x in g.func.args.args}
+    for x in ast.walk(ret.value):
+        if isinstance(x, (ast.Lambda, ast.NamedExpr, ast.Await, ast.Yield,
+                          ast.ListComp, ast.DictComp, ast.SetComp,
+                          ast.GeneratorExp)):
+            return None
+        if isinstance(x, ast.Name) and x.id not in bind and x.id != 'self' \
+                and x.id in local:
+            return None             # a global of the callee, shadowed here
+
+    class S(ast.NodeTransformer):
+        def visit_Name(self, n):
+            if n.id in bind and isinstance(n.ctx, ast.Load):
+                return copy.deepcopy(bind[n.id])
+            return n
+    return S().visit(copy.deepcopy(ret.value))
+
+
+def _same_value(g, expr, a, b):
+    """the names in expr have the same reaching definitions at nodes a, b"""
+    for x in walk(expr):
+        if isinstance(x, ast.Name) and x.id != 'self':
+            da = {d.id for d in defs_reaching(g, x.id, a)[0]}
+            db = {d.id for d in defs_reaching(g, x.id, b)[0]}
+            if da != db:
+                return False
+    return True
+
+
+def entry_alias(g, name, at, depth=2):
+    """K if the local `name` denotes the record self._pilots[K] at node `at`
+    whichever definition reaches it: read from the table (subscript / get /
+    a method that returns such a record for its argument), or a fresh dict
+    that was stored as self._pilots[K] on every path to `at`"""
+    defs, undef = defs_reaching(g, name, at)
+    if undef or not defs:
+        return None
+    keys = []
+    for d in defs:
+        v = assigned_value(d.ast, name) if d.kind == 'stmt' else None
+        K = None
+        if isinstance(v, ast.Subscript) and is_self_attr(v.value, '_pilots') \
+                and not isinstance(v.slice, ast.Slice):
+            K = v.slice
+        elif isinstance(v, ast.Call) and isinstance(v.func, ast.Attribute) and \
+                v.func.attr == 'get' and is_self_attr(v.func.value, '_pilots') \
+                and v.args and not v.keywords and (
+                    len(v.args) == 1 or len(v.args) == 2 and
+                    isinstance(v.args[1], ast.Constant) and
+                    v.args[1].value is None):
+            K = v.args[0]       # None cannot be subscripted: a record or raise
+        elif isinstance(v, ast.Dict) or isinstance(v, ast.Call) and \
+                dotted(v.func) == 'dict':
+            puts = [(n.id, t.slice) for n in g.nodes
+                    if n.kind == 'stmt' and isinstance(n.ast, ast.Assign) and
+                    isinstance(n.ast.value, ast.Name) and
+                    n.ast.value.id == name for t in n.ast.targets
+                    if isinstance(t, ast.Subscript) and
+                    is_self_attr(t.value, '_pilots')]
+            if puts and len({unparse(k) for _, k in puts}) == 1 and \
+                    at not in reach_noeffect(g, nsucc(g, d.id),
+                                             [i for i, _ in puts]):
+                K = puts[0][1]
+        elif isinstance(v, ast.Call) and depth > 0:
+            K = _entry_call(g, v, depth - 1)
+        if K is None or not _same_value(g, K, d.id, at):
+            return None
+        keys.append(K)
+    if len({unparse(k) for k in keys}) != 1:
+        return None
+    return keys[0]
+
+
+def _entry_call(g, call, depth):
+    """`self.m(.., K, ..)` where every return of m hands back the record
+    self._pilots[<its parameter>]: the argument K"""
+    fi = _CTX['funcs'].get(id(g.func))
+    prog = _CTX['prog']
+    if fi is None or prog is None or not (
+            isinstance(call.func, ast.Attribute) and
+            isinstance(call.func.value, ast.Name) and
+            call.func.value.id == 'self'):
+        return None
+    f, concretes = fi
+    callees = [prog.resolve_call(f, call, K) for K in concretes]
+    if not callees or any(c is None or c.node is not callees[0].node
+                          for c in callees):
+        return None
+    callee = callees[0]
+    a = callee.node.args
+    if a.vararg or a.kwarg or a.kwonlyargs or a.posonlyargs or \
+            id(callee.node) not in _CTX['funcs']:
+        return None
+    params = [x.arg for x in a.args][1:]
+    cg = cfg_of(callee)
+    rets = [n for n in cg.nodes if n.kind == 'stmt' and
+            isinstance(n.ast, ast.Return)]
+    if not rets or any(e.src not in {r.id for r in rets}
+                       for e in cg.pred[cg.exit.id]):
+        return None                 # may fall off the end
+    idx = set()
+    for r in rets:
+        v = r.ast.value
+        K = None
+        if isinstance(v, ast.Name):
+            K = entry_alias(cg, v.id, r.id, depth)
+        elif isinstance(v, ast.Subscript) and is_self_attr(v.value, '_pilots'):
+            K = v.slice
+        if not (isinstance(K, ast.Name) and K.id in params) or \
+                [n for n in cg.nodes if K.id in stores_of(n)]:
+            return None
+        idx.add(params.index(K.id))
+    if len(idx) != 1:
+        return None
+    i = idx.pop()
+    if i < len(call.args):
+        return None if isinstance(call.args[i], ast.Starred) else call.args[i]
+    for k in call.keywords:
+        if k.arg == params[i]:
+            return k.value
+    return None
+
+
+def resolve_local(g, expr, at, depth=4, allow=None):
+    """copy of expr in canonical form: local names with exactly one reaching
+    simple assignment are replaced by the assigned expression (access paths,
+    arithmetic; an alias `x = self.<attr>` only if the attribute is a
+    container that is never re-assigned, or if no store / foreign call lies
+    between the alias and the use; whatever `allow(value, def node id, at)`
+    admits) and calls of getter methods (`return <expr>`) by that
+    expression"""
+    class T(ast.NodeTransformer):
+        def visit_Name(self, n):
+            if not isinstance(n.ctx, ast.Load) or depth <= 0:
+                return n
+            defs, undef = defs_reaching(g, n.id, at)
+            if undef or not defs:
+                return n
+            d = defs[0]
+            v = assigned_value(d.ast, n.id) if d.kind == 'stmt' else None
+            if len(defs) != 1 or v is None or isinstance(v, ast.Dict) or \
+                    isinstance(v, ast.Call) and _getter_expr(g, v) is None \
+                    and not dotted(v.func).endswith('_state_value') \
+                    and not (allow is not None and allow(v, d.id, at)):
+                K = entry_alias(g, n.id, at)
+                if K is not None:
+                    return ast.Subscript(
+                        value=ast.Attribute(
+                            value=ast.Name(id='self', ctx=ast.Load()),
+                            attr='_pilots', ctx=ast.Load()),
+                        slice=resolve_local(g, K, at, depth - 1, allow),
+                        ctx=ast.Load())
+                return n
+            if is_self_attr(v):
+                if not (is_container_attr(v.attr) or
+                        snapshot_fresh(g, v.attr, d.id, at)):
+                    return n
+                return copy.deepcopy(v)
+            if I.is_path(v) or isinstance(v, ast.BinOp) or \
+                    isinstance(v, ast.Call) and (
+                        dotted(v.func).endswith('_state_value') or
+                        _getter_expr(g, v) is not None) or \
+                    (allow is not None and allow(v, d.id, at)):
+                return resolve_local(g, v, d.id, depth - 1, allow)
+            return n
+
+        def visit_Call(self, n):
+            if depth > 0:
+                e = _getter_expr(g, n)
+                if e is not None:
+                    return resolve_local(g, e, at, depth - 1, allow)
+            return self.generic_visit(n)
+    return T().visit(copy.deepcopy(expr))
+
+
+# ------------------------------------------------------------------------------
+# loops seen as `for <target> in <iter>`
+#
+class LoopV:
+    """one loop of a function in the form `for <target> in <iter>`:
+    for     for T in X
+    range   for i in range(len(X)): T = X[i]
+    pop     L = <X>; while L: T = L.pop(..)      (L not touched otherwise)
+    index   i = 0; while i < len(X): T = X[i]; ..; i += 1  (once per iteration)
+    """
+    def __init__(self, g, head, form, target, it, names):
+        self.g      = g
+        self.head   = head
+        self.id     = head.id
+        self.loops  = head.loops
+        self.form   = form
+        self.target = target
+        self.iter   = it
+        self.names  = names
+        self.ast    = head.ast
+
+    @property
+    def after(self):
+        """nodes at which the loop is left normally (not by break)"""
+        g = self.g
+        if self.head.kind == 'for':
+            return [e.dst for e in g.succ[self.id] if e.label == 'done']
+        body = g.loop_body[self.id]
+        return [e.dst for n in body if g.nodes[n].kind == 'test' and
+                any(x is g.nodes[n].ast for x in walk(self.ast.test))
+                for e in g.succ[n] if e.label in 'TF' and e.dst not in body
+                and e.enter != self.id]
+
+    @property
+    def header(self):
+        return 'for %s in %s' % (unparse(self.target), unparse(self.iter))
+
+
+def _touched(g, body, text, but=()):
+    """the object named by the path `text` is changed, re-bound or handed to
+    somebody who might change it inside the loop body (node ids)"""
+    for nid in body:
+        n = g.nodes[nid]
+        if n.ast is None or n.kind in ('while', 'dispatch', 'handler'):
+            continue
+        roots = [n.ast.iter, n.ast.target] if n.kind == 'for' else \
+            [i.context_expr for i in n.ast.items] if n.kind == 'with' else \
+            [n.ast]
+        for r in roots:
+            for x in walk(r):
+                if any(x is b for b in but):
+                    continue
+                if isinstance(x, (ast.Name, ast.Attribute, ast.Subscript)) and \
+                        isinstance(x.ctx, (ast.Store, ast.Del)):
+                    t = x
+                    while isinstance(t, ast.Subscript):
+                        t = t.value
+                    if unparse(t) == text:
+                        return True
+                if isinstance(x, ast.Call):
+                    if isinstance(x.func, ast.Attribute) and \
+                            x.func.attr in MUTATORS and \
+                            unparse(x.func.value) == text:
+                        return True
+                    if not is_quiet_call(x) and dotted(x.func) not in PURE and \
+                            any(unparse(a) == text for a in list(x.args) +
+                                [k.value for k in x.keywords]):
+                        return True
+    return False
+
+
+def _while_view(g, head):
+    s = head.ast
+    body = g.loop_body[head.id]
+    t = s.test
+    enter = [e for n in body for e in g.succ[n] if e.enter == head.id]
+    if len(enter) != 1 or enter[0].label != 'T' or \
+            g.nodes[enter[0].src].ast is not t:
+        return None
+    bind = first_stmt(s.body)
+    if not (isinstance(bind, ast.Assign) and len(bind.targets) == 1 and
+            stores_in_target(bind.targets[0])):
+        return None
+    target, v = bind.targets[0], bind.value
+    names = stores_in_target(target)
+    bnodes = [n for n in g.nodes if n.ast is bind]
+    if len(bnodes) != 1:
+        return None
+    # pop form
+    L = None
+    if isinstance(t, ast.Name):
+        L = t.id
+    elif isinstance(t, ast.Call) and dotted(t.func) == 'len' and \
+            len(t.args) == 1 and isinstance(t.args[0], ast.Name):
+        L = t.args[0].id
+    elif isinstance(t, ast.Compare) and len(t.ops) == 1 and \
+            isinstance(t.ops[0], (ast.Gt, ast.NotEq)) and \
+            isinstance(t.comparators[0], ast.Constant) and \
+            t.comparators[0].value == 0 and isinstance(t.left, ast.Call) and \
+            dotted(t.left.func) == 'len' and len(t.left.args) == 1 and \
+            isinstance(t.left.args[0], ast.Name):
+        L = t.left.args[0].id
+    if L is not None:
+        if not (isinstance(v, ast.Call) and isinstance(v.func, ast.Attribute)
+                and v.func.attr in ('pop', 'popleft') and
+                isinstance(v.func.value, ast.Name) and v.func.value.id == L
+                and not v.keywords and len(v.args) <= 1 and
+                all(isinstance(a, ast.Constant) and a.value in (0, -1)
+                    for a in v.args)):
+            return None
+        if L in names or L in [a.arg for a in g.func.args.args]:
+            return None
+        defs = [n for n in g.nodes if L in stores_of(n)]
+        if len(defs) != 1 or defs[0].id in body or \
+                assigned_value(defs[0].ast, L) is None or \
+                head.id in g.reachable(g.entry.id, skip_nodes={defs[0].id}):
+            return None
+        every = {n.id for n in g.nodes}
+        if _touched(g, every, L, but=(v,) + tuple(walk(defs[0].ast))):
+            return None
+        return LoopV(g, head, 'pop', target, assigned_value(defs[0].ast, L),
+                     names)
+    # index form
+    if not (isinstance(t, ast.Compare) and len(t.ops) == 1):
+        return None
+    l, r, op = t.left, t.comparators[0], type(t.ops[0])
+    if isinstance(l, ast.Call):
+        l, r, op = r, l, {ast.Gt: ast.Lt}.get(op, op)
+    if not (isinstance(l, ast.Name) and op in (ast.Lt, ast.NotEq) and
+            isinstance(r, ast.Call) and dotted(r.func) == 'len' and
+            len(r.args) == 1 and I.is_path(r.args[0])):
+        return None
+    i, X = l.id, r.args[0]
+    if not (isinstance(v, ast.Subscript) and isinstance(v.slice, ast.Name) and
+            v.slice.id == i and unparse(v.value) == unparse(X)) or i in names:
+        return None
+    defs = [n for n in g.nodes if i in stores_of(n)]
+    init = [n for n in defs if n.id not in body]
+    incs = [n for n in defs if n.id in body]
+    if len(init) != 1 or len(incs) != 1:
+        return None
+    init, inc = init[0], incs[0]
+    iv = assigned_value(init.ast, i)
+    if not (isinstance(iv, ast.Constant) and iv.value == 0 and
+            type(iv.value) is int) or \
+            head.id in g.reachable(g.entry.id, skip_nodes={init.id}):
+        return None
+    a = inc.ast
+    plus1 = inc.kind == 'stmt' and (
+        isinstance(a, ast.AugAssign) and isinstance(a.op, ast.Add) and
+        isinstance(a.value, ast.Constant) and a.value.value == 1 or
+        isinstance(a, ast.Assign) and len(a.targets) == 1 and
+        isinstance(a.value, ast.BinOp) and isinstance(a.value.op, ast.Add) and
+        {type(a.value.left), type(a.value.right)} == {ast.Name, ast.Constant}
+        and all(isinstance(x, ast.Name) and x.id == i or
+                isinstance(x, ast.Constant) and x.value == 1
+                for x in (a.value.left, a.value.right)))
+    if not plus1 or not inc.loops or inc.loops[-1] != head.id:
+        return None
+    start = iter_start(g, head.id)
+    if head.id in g.reachable(start, skip_nodes={inc.id}) or \
+            bnodes[0].id in g.reachable(nsucc(g, inc.id),
+                                        skip_nodes={head.id}):
+        return None
+    if _touched(g, body, unparse(X)):
+        return None
+    return LoopV(g, head, 'index', target, X, names)
+
+
+def loop_views(g):
+    """{head id: LoopV} for the loops of g which have the form of a for loop"""
+    if id(g) in _VIEWS:
+        return _VIEWS[id(g)][1]
+    out = {}
+    for h, a in g.loop_ast.items():
+        hn = g.nodes[h]
+        if hn.kind == 'for':
+            v = LoopV(g, hn, 'for', a.target, a.iter,
+                      stores_in_target(a.target))
+            it = a.iter
+            b = first_stmt(a.body)
+            if isinstance(it, ast.Call) and dotted(it.func) == 'range' and \
+                    len(it.args) == 1 and not it.keywords and \
+                    isinstance(it.args[0], ast.Call) and \
+                    dotted(it.args[0].func) == 'len' and \
+                    len(it.args[0].args) == 1 and \
+                    I.is_path(it.args[0].args[0]) and \
+                    isinstance(a.target, ast.Name) and \
+                    isinstance(b, ast.Assign) and len(b.targets) == 1 and \
+                    isinstance(b.value, ast.Subscript) and \
+                    isinstance(b.value.slice, ast.Name) and \
+                    b.value.slice.id == a.target.id and \
+                    unparse(b.value.value) == unparse(it.args[0].args[0]) and \
+                    a.target.id not in stores_in_target(b.targets[0]) and \
+                    not _touched(g, g.loop_body[h],
+                                 unparse(it.args[0].args[0])):
+                v = LoopV(g, hn, 'range', b.targets[0], it.args[0].args[0],
+                          stores_in_target(b.targets[0]))
+            out[h] = v
+        elif hn.kind == 'while':
+            v = _while_view(g, hn)
+            if v is not None:
+                out[h] = v
+    _VIEWS[id(g)] = (g, out)
+    return out
+
+
+def enclosing_for(g, node, name):
+    """innermost loop view around the node which binds `name` per iteration"""
+    views = loop_views(g)
+    for h in reversed(node.loops):
+        v = views.get(h)
+        if v is not None and name in v.names:
+            return v
+    return None
+
+
+def strip_copy(e):
+    """list(X), X[:], X.copy(), sorted(X) ...  ->  X"""
+    while True:
+        if isinstance(e, ast.Call) and dotted(e.func) in (
+                'list', 'tuple', 'sorted', 'reversed') and len(e.args) == 1:
+            e = e.args[0]
+        elif isinstance(e, ast.Call) and isinstance(e.func, ast.Attribute) \
+                and e.func.attr == 'copy' and not e.args:
+            e = e.func.value
+        elif isinstance(e, ast.Subscript) and isinstance(e.slice, ast.Slice) \
+                and e.slice.lower is None and e.slice.upper is None and \
+                e.slice.step is None:
+            e = e.value
+        else:
+            return e
 
 
 def is_empty_ctor(v):
@@ -101,27 +683,87 @@ def is_self_attr(e, attr=None):
         e.value.id == 'self' and (attr is None or e.attr == attr)
 
 
-def resolve_local(g, expr, at, depth=3):
-    """copy of expr in which local names with exactly one reaching simple
-    assignment are replaced by the assigned expression"""
-    class T(ast.NodeTransformer):
-        def visit_Name(self, n):
-            if not isinstance(n.ctx, ast.Load) or depth <= 0:
-                return n
-            defs, undef = defs_reaching(g, n.id, at)
-            if undef or len(defs) != 1:
-                return n
-            d = defs[0]
-            if d.kind == 'stmt' and isinstance(d.ast, ast.Assign) and \
-                    len(d.ast.targets) == 1 and \
-                    isinstance(d.ast.targets[0], ast.Name) and \
-                    (I.is_path(d.ast.value) or
-                     isinstance(d.ast.value, ast.BinOp) or
-                     isinstance(d.ast.value, ast.Call) and
-                     dotted(d.ast.value.func).endswith('_state_value')):
-                return resolve_local(g, d.ast.value, d.id, depth - 1)
-            return n
-    return T().visit(copy.deepcopy(expr))
+# ------------------------------------------------------------------------------
+# guards: what is known to hold at a site
+#
+def _testlike(v):
+    return isinstance(v, (ast.Compare, ast.BoolOp)) or \
+        isinstance(v, ast.UnaryOp) and isinstance(v.op, ast.Not)
+
+
+def hoisted_test(g, name, tid):
+    """the local `name`, tested at node tid, holds the value of a test
+    expression computed ahead (`ok = a == b; if ok:`): that expression, if the
+    assignment is the only one reaching the test and nothing it reads can
+    have changed in between.  None if the name is not such a local;
+    AnalysisError if it is one the recogniser cannot see through."""
+    defs, undef = defs_reaching(g, name, tid)
+    vals = [assigned_value(d.ast, name) if d.kind == 'stmt' else None
+            for d in defs]
+    if not any(v is not None and _testlike(v) for v in vals):
+        return None
+    where = 'test `%s` (line %s)' % (name, getattr(g.nodes[tid].ast, 'lineno',
+                                                   '?'))
+    if undef or len(defs) != 1:
+        raise AnalysisError('UNRECOGNISED-IDIOM %s: the %s is a local which '
+                            'holds the outcome of a comparison on some paths '
+                            'only' % (g.func.name, where))
+    d, v = defs[0], vals[0]
+    reads = {x.id for x in walk(v) if isinstance(x, ast.Name)}
+    content = any(isinstance(x, (ast.Subscript, ast.Attribute, ast.Call)) or
+                  isinstance(x, ast.Compare) and
+                  any(isinstance(o, (ast.In, ast.NotIn)) for o in x.ops)
+                  for x in walk(v))
+    for m in between(g, d.id, tid):
+        n = g.nodes[m]
+        stale = bool(set(stores_of(n)) & reads)
+        if n.kind == 'stmt' and n.ast is not None:
+            for kind, t, st in I.stores(n.ast):
+                if root_name(t) in reads:
+                    stale = True
+        if content and loud_calls(g, m):
+            stale = True
+        if stale:
+            raise AnalysisError('UNRECOGNISED-IDIOM %s: the %s holds `%s`, '
+                                'computed before `%s` which may change its '
+                                'operands' % (g.func.name, where, short(v, 50),
+                                              short(n.ast, 40)))
+    return v
+
+
+def _facts(g, e, pol, tid, out, depth=0):
+    if isinstance(e, ast.UnaryOp) and isinstance(e.op, ast.Not):
+        return _facts(g, e.operand, not pol, tid, out, depth)
+    if isinstance(e, ast.BoolOp):
+        if isinstance(e.op, ast.And) == pol:    # `and` holds / `or` fails
+            for v in e.values:
+                _facts(g, v, pol, tid, out, depth)
+        return
+    if isinstance(e, ast.Name) and depth < 4:
+        v = hoisted_test(g, e.id, tid)
+        if v is not None:
+            return _facts(g, v, pol, tid, out, depth + 1)
+    out.append((e, pol, tid))
+
+
+def guard_facts(g, target, start=None):
+    """[(atom, holds, test node id)]: the atomic tests whose outcome is known
+    on every path from start to target (control dependence with polarity;
+    tests computed ahead into a local are seen through)"""
+    out = []
+    for tid, lab in guards(g, target, start=start):
+        _facts(g, g.nodes[tid].ast, lab == 'T', tid, out)
+    return out
+
+
+def test_expr(g, t):
+    """the expression a test node decides (a hoisted test seen through)"""
+    a = t.ast
+    if isinstance(a, ast.Name):
+        v = hoisted_test(g, a.id, t.id)
+        if v is not None:
+            return v
+    return a
 
 
 def pilot_entry(e, key):
@@ -217,6 +859,13 @@ def derive(g, expr, at, depth=0):
         if isinstance(expr.func, ast.Attribute) and \
                 expr.func.attr in ('copy', 'keys') and not expr.args:
             return derive(g, expr.func.value, at, d)
+        if isinstance(expr.func, ast.Attribute) and \
+                expr.func.attr in ('pop', 'popleft') and \
+                isinstance(expr.func.value, ast.Name) and len(expr.args) <= 1:
+            return derive(g, expr.func.value, at, d)    # an element of a list
+        e = _getter_expr(g, expr)
+        if e is not None:
+            return derive(g, e, at, d)
         return 'unknown'
     if isinstance(expr, ast.Name):
         defs, undef = defs_reaching(g, expr.id, at)
@@ -229,10 +878,9 @@ def derive(g, expr, at, depth=0):
                 if not (isinstance(t, ast.Name) and t.id == expr.id):
                     return 'unknown'
                 res.add(derive(g, dn.ast.iter, dn.id, d))
-            elif dn.kind == 'stmt' and isinstance(dn.ast, ast.Assign) and \
-                    len(dn.ast.targets) == 1 and \
-                    isinstance(dn.ast.targets[0], ast.Name):
-                res.add(derive(g, dn.ast.value, dn.id, d))
+            elif dn.kind == 'stmt' and \
+                    assigned_value(dn.ast, expr.id) is not None:
+                res.add(derive(g, assigned_value(dn.ast, expr.id), dn.id, d))
             else:
                 return 'unknown'
         # a local list: what is put into it
@@ -299,8 +947,10 @@ def r12_1(prog, rep, rid='R12.1'):
                                         % (f.where, p.id, short(c, 60)))
                 for dn in defs:
                     k = None
-                    if dn.kind == 'stmt' and isinstance(dn.ast, ast.Assign):
-                        k = pilot_entry(dn.ast.value, 'pilot')
+                    v = assigned_value(dn.ast, p.id) \
+                        if dn.kind == 'stmt' else None
+                    if v is not None:
+                        k = pilot_entry(resolve_local(g, v, dn.id), 'pilot')
                     if k is None:
                         raise AnalysisError(
                             'UNRECOGNISED-IDIOM %s: pilot %r is defined by '
@@ -308,7 +958,7 @@ def r12_1(prog, rep, rid='R12.1'):
                             % (f.where, p.id, short(dn.ast, 60)))
                     keys.append((k, dn.id))
             else:
-                k = pilot_entry(p, 'pilot')
+                k = pilot_entry(resolve_local(g, p, node.id), 'pilot')
                 if k is None:
                     raise AnalysisError('UNRECOGNISED-IDIOM %s: pilot argument '
                                         'of `%s`' % (f.where, short(c, 60)))
@@ -321,9 +971,9 @@ def r12_1(prog, rep, rid='R12.1'):
             okay = kinds == {'pids'}
             if not okay:
                 # all known pilots: acceptable only under role == ADDED
-                for tid, lab in guards(g, node.id):
-                    if classify_role_atom(prog, f, g, g.nodes[tid].ast,
-                                          lab == 'T', tid, added) == 'ok':
+                for a, pol, tid in guard_facts(g, node.id):
+                    if classify_role_atom(prog, f, g, a, pol, tid,
+                                          added) == 'ok':
                         okay = True
             rep.check(okay, rid, f,
                       '%s: the pilot of `%s` is taken from self._pids'
@@ -344,13 +994,27 @@ def r12_1(prog, rep, rid='R12.1'):
 
 
 def _pids_writes(m):
+    """stores through self._pids, or through a local name the method binds to
+    self._pids (the list is the same object)"""
+    alias = {t.id for n in walk(m.node, nested=True)
+             if isinstance(n, ast.Assign) for t in walk(n)
+             if isinstance(t, ast.Name) and isinstance(t.ctx, ast.Store) and
+             is_self_attr(assigned_value(n, t.id), '_pids')}
+
+    def is_pids(t):
+        return is_self_attr(t, '_pids') or \
+            isinstance(t, ast.Name) and t.id in alias
     out = []
     for kind, target, stmt in I.stores(m.node, nested=True):
         t = target
         while isinstance(t, ast.Subscript):
             t = t.value
-        if is_self_attr(t, '_pids'):
+        if is_pids(t):
             out.append((kind, target, stmt))
+    for n in walk(m.node, nested=True):
+        if isinstance(n, ast.AugAssign) and isinstance(n.target, ast.Name) \
+                and n.target.id in alias:
+            out.append(('aug', n.target, n))
     return out
 
 
@@ -410,14 +1074,25 @@ def _pids_writers(prog, rep, rid, cname, mname, m):
                     and stmt.args and isinstance(stmt.args[0], ast.Name):
                 n = smap[id(stmt)]
                 h = enclosing_for(g, n, stmt.args[0].id)
-                if h is not None and isinstance(h.ast.iter, ast.Name) and \
-                        params and h.ast.iter.id == params[0]:
+                if h is not None and isinstance(h.iter, ast.Name) and \
+                        params and h.iter.id == params[0]:
                     rem.append((n, h))
             elif kind == 'assign' and is_self_attr(target, '_pids') and \
                     isinstance(stmt.value, ast.ListComp) and params and \
                     any(isinstance(x, ast.Name) and x.id == params[0]
                         for x in walk(stmt.value)):
                 rem.append((smap[id(stmt)], None))
+            elif kind == 'assign' and is_self_attr(target, '_pids') and \
+                    isinstance(stmt.value, ast.ListComp) and params:
+                # one filter per removed pid, inside the loop over the pids
+                n = smap[id(stmt)]
+                for x in walk(stmt.value):
+                    h = enclosing_for(g, n, x.id) \
+                        if isinstance(x, ast.Name) else None
+                    if h is not None and isinstance(h.iter, ast.Name) and \
+                            h.iter.id == params[0]:
+                        rem.append((n, h))
+                        break
         okay = False
         for n, h in rem:
             if h is None:
@@ -489,10 +1164,10 @@ def _control_cb(prog, rep, rid, added, removed):
         for c in calls:
             node = smap[id(c)]
             gd = False
-            for tid, lab in guards(g, node.id):
-                cc = const_compare(prog, f.module, g.nodes[tid].ast, f.cls)
+            for a, pol, tid in guard_facts(g, node.id):
+                cc = const_compare(prog, f.module, a, f.cls)
                 if cc and cc[2] == frozenset([cmd]) and \
-                        (cc[1] == 'in') == (lab == 'T'):
+                        (cc[1] == 'in') == pol:
                     gd = True
             arg_ok = bool(c.args) and msg in d.expr_depends(c.args[0])
             rep.check(gd and arg_ok, rid, f, 'control_cb: `%s` runs for cmd == '
@@ -505,20 +1180,37 @@ def _control_cb(prog, rep, rid, added, removed):
                       'set in the wrong way' % cmd)
             # role store in a loop which precedes the call
             okay = False
+            sets = {}
             for kind, target, stmt in I.stores(f.node):
-                if kind != 'assign' or pilot_entry(target, 'role') is None:
-                    continue
-                if prog.fold(f.module, stmt.value, f.cls) != role:
+                if kind != 'assign' or id(stmt) not in smap:
                     continue
                 sn = smap[id(stmt)]
-                if not sn.loops:
-                    okay = okay or node.id not in reach_noeffect(
-                        g, [g.entry.id], [sn.id])
+                tr = resolve_local(g, target, sn.id)
+                if pilot_entry(tr, 'role') is not None:
+                    if prog.fold(f.module, stmt.value, f.cls) != role:
+                        continue
+                elif isinstance(tr, ast.Subscript) and \
+                        is_self_attr(tr.value, '_pilots'):
+                    # a whole record {'role': <role>, ..}
+                    ds = fresh_dict(g, stmt.value, sn.id)
+                    if not ds or any(
+                            dict_field(x, 'role') is None or
+                            prog.fold(f.module, dict_field(x, 'role'),
+                                      f.cls) != role for x in ds):
+                        continue
+                else:
                     continue
-                h = sn.loops[-1]
+                # stores on alternative branches of one loop count together
+                sets.setdefault(sn.loops[-1] if sn.loops else None,
+                                []).append(sn.id)
+            for h, ids in sets.items():
+                if h is None:
+                    okay = okay or node.id not in reach_noeffect(
+                        g, [g.entry.id], ids)
+                    continue
                 before = node.id not in g.reachable(g.entry.id,
                                                     skip_nodes={h})
-                each = h not in reach_noeffect(g, [iter_start(g, h)], [sn.id])
+                each = h not in reach_noeffect(g, [iter_start(g, h)], ids)
                 okay = okay or (before and each)
             rep.check(okay, rid, f, 'control_cb: role = %s is stored for every '
                       'pilot of the command before `%s`' % (rname, short(c, 40)),
@@ -531,6 +1223,58 @@ def _control_cb(prog, rep, rid, added, removed):
 # ------------------------------------------------------------------------------
 # R12.8 (extension of R12.1)  a pilot object read from the table is a real one
 #
+def fresh_dict(g, v, at):
+    """the dict display / dict(..) call that v denotes at node `at`: v itself
+    or the value of every definition of the local v (all displays) - else
+    None"""
+    if isinstance(v, ast.Dict) or isinstance(v, ast.Call) and \
+            dotted(v.func) == 'dict':
+        return [v]
+    if isinstance(v, ast.Name):
+        defs, undef = defs_reaching(g, v.id, at)
+        vals = [assigned_value(d.ast, v.id) if d.kind == 'stmt' else None
+                for d in defs]
+        if defs and not undef and all(
+                isinstance(x, ast.Dict) or isinstance(x, ast.Call) and
+                dotted(x.func) == 'dict' for x in vals):
+            return vals
+    return None
+
+
+def dict_field(d, key):
+    """value expression of a constant key in a dict display / dict(k=v)"""
+    if isinstance(d, ast.Dict):
+        for k, v in zip(d.keys, d.values):
+            if isinstance(k, ast.Constant) and k.value == key:
+                return v
+    if isinstance(d, ast.Call):
+        for k in d.keywords:
+            if k.arg == key:
+                return k.value
+    return None
+
+
+def record_stores(f, g):
+    """[(assignment, cfg node, key expr, [dict displays])]: stores of a fresh
+    record into self._pilots[<key>]"""
+    smap = I.stmt_node_map(g)
+    out = []
+    for n in walk(f.node):
+        if not isinstance(n, ast.Assign) or id(n) not in smap:
+            continue
+        node = smap[id(n)]
+        for t in n.targets:
+            if not isinstance(t, ast.Subscript) or \
+                    isinstance(t.slice, ast.Slice):
+                continue
+            if not is_self_attr(resolve_local(g, t.value, node.id), '_pilots'):
+                continue
+            ds = fresh_dict(g, n.value, node.id)
+            if ds:
+                out.append((n, node, t.slice, ds))
+    return out
+
+
 def placeholder_writers(prog):
     """[(FuncInfo, stmt)]: stores of an entry {.. 'pilot': None ..} into
     self._pilots which the same function does not complete with a pilot
@@ -543,25 +1287,22 @@ def placeholder_writers(prog):
             if id(f.node) in seen:
                 continue
             seen.add(id(f.node))
+            g = cfg_of(f)
             ws = []
-            for n in walk(f.node):
-                if isinstance(n, ast.Assign) and isinstance(n.value, ast.Dict) \
-                        and any(isinstance(t, ast.Subscript) and
-                                is_self_attr(t.value, '_pilots')
-                                for t in n.targets):
-                    for k, v in zip(n.value.keys, n.value.values):
-                        if isinstance(k, ast.Constant) and k.value == 'pilot' \
-                                and isinstance(v, ast.Constant) and \
-                                v.value is None:
-                            ws.append(n)
+            for n, node, key, ds in record_stores(f, g):
+                for d in ds:
+                    v = dict_field(d, 'pilot')
+                    if isinstance(v, ast.Constant) and v.value is None and \
+                            n not in ws:
+                        ws.append(n)
             if not ws:
                 continue
-            g = cfg_of(f)
             smap = I.stmt_node_map(g)
             fills = [smap[id(st)].id for kind, t, st in I.stores(f.node)
-                     if kind == 'assign' and pilot_entry(t, 'pilot') is not None
-                     and not (isinstance(st.value, ast.Constant) and
-                              st.value.value is None) and id(st) in smap]
+                     if kind == 'assign' and id(st) in smap and pilot_entry(
+                         resolve_local(g, t, smap[id(st)].id), 'pilot')
+                     is not None and not (isinstance(st.value, ast.Constant)
+                                          and st.value.value is None)]
             for w in ws:
                 wn = smap[id(w)]
                 ends = {g.exit.id}
@@ -593,17 +1334,16 @@ def _only_unbound_callers(prog, f, g, node):
     if not params:
         return False
     bound = False
-    for tid, lab in guards(g, node.id):
-        a = g.nodes[tid].ast
-        if isinstance(a, ast.Name) and lab == 'T':
+    for a, pol, tid in guard_facts(g, node.id):
+        if isinstance(a, ast.Name) and pol:
             defs, undef = defs_reaching(g, a.id, tid)
             if not undef and defs and all(
                     d.kind == 'stmt' and isinstance(d.ast, ast.Assign) and
                     _pilot_key_read(d.ast.value) is not None for d in defs):
                 tv = _pilot_key_read(defs[0].ast.value)
                 h = enclosing_for(g, node, tv)
-                if h is not None and isinstance(h.ast.iter, ast.Name) and \
-                        h.ast.iter.id == params[0]:
+                if h is not None and isinstance(h.iter, ast.Name) and \
+                        h.iter.id == params[0]:
                     bound = True
     if not bound:
         return False
@@ -639,9 +1379,8 @@ def _only_unbound_callers(prog, f, g, node):
                                 isinstance(cc.args[0], ast.Name):
                             apps += 1
                             okay = False
-                            for tid, lab in guards(mg, n.id):
-                                a = mg.nodes[tid].ast
-                                if isinstance(a, ast.Name) and lab == 'F':
+                            for a, pol, tid in guard_facts(mg, n.id):
+                                if isinstance(a, ast.Name) and not pol:
                                     ds, ud = defs_reaching(mg, a.id, tid)
                                     if not ud and ds and all(
                                             d.kind == 'stmt' and
@@ -688,12 +1427,14 @@ def r12_8(prog, rep, rid='R12.8'):
                     defs, undef = defs_reaching(g, p.id, node.id)
                     pdefs = {d.id for d in defs}
                     for dn in defs:
-                        if dn.kind == 'stmt' and isinstance(dn.ast, ast.Assign):
-                            k = pilot_entry(dn.ast.value, 'pilot')
+                        v = assigned_value(dn.ast, p.id) \
+                            if dn.kind == 'stmt' else None
+                        if v is not None:
+                            k = pilot_entry(resolve_local(g, v, dn.id), 'pilot')
                             if k is not None:
                                 keys.append((k, dn.id))
                 else:
-                    k = pilot_entry(p, 'pilot')
+                    k = pilot_entry(resolve_local(g, p, node.id), 'pilot')
                     if k is not None:
                         keys.append((k, node.id))
                 if not keys:
@@ -702,12 +1443,9 @@ def r12_8(prog, rep, rid='R12.8'):
                 how = None
                 if all(derive(g, k, at) == 'pids' for k, at in keys):
                     how = 'its key is drawn from self._pids'
-                gs = guards(g, node.id)
-                for tid, lab in gs:
+                for a, pol, tid in guard_facts(g, node.id):
                     if how:
                         break
-                    a = g.nodes[tid].ast
-                    pol = lab == 'T'
                     # truth value of the pilot object itself
                     if isinstance(p, ast.Name):
                         same = {d.id for d in defs_reaching(g, p.id, tid)[0]} \
@@ -733,7 +1471,9 @@ def r12_8(prog, rep, rid='R12.8'):
                             is_self_attr(a.comparators[0], '_pilots') and \
                             isinstance(a.ops[0], (ast.In, ast.NotIn)) and \
                             isinstance(a.ops[0], ast.In) == pol and \
-                            any(unparse(a.left) == unparse(k)
+                            any(unparse(k) in (
+                                unparse(a.left),
+                                unparse(resolve_local(g, a.left, tid)))
                                 for k, _ in keys):
                         how = 'its key is a member of self._pilots, which ' \
                               'holds added pilots only'
@@ -762,6 +1502,116 @@ def r12_8(prog, rep, rid='R12.8'):
                           '== p1: TypeError in _assign_pilot, t and the rest '
                           'of the batch are neither forwarded nor kept in '
                           'self._early')
+
+
+# ------------------------------------------------------------------------------
+# R12.9  the record of a pilot is created once
+#
+def _unknown_key(g, atom, pol, tid, key):
+    """the test establishes that `key` has no record in self._pilots"""
+    kt = unparse(resolve_local(g, key, tid))
+
+    def same(e):
+        return unparse(resolve_local(g, e, tid)) == kt or \
+            unparse(e) == unparse(key)
+    if isinstance(atom, ast.Compare) and len(atom.ops) == 1:
+        op, l, r = atom.ops[0], atom.left, atom.comparators[0]
+        if isinstance(op, (ast.In, ast.NotIn)) and same(l):
+            r = resolve_local(g, r, tid)
+            if isinstance(r, ast.Call) and isinstance(r.func, ast.Attribute) \
+                    and r.func.attr == 'keys' and not r.args:
+                r = r.func.value
+            if is_self_attr(r, '_pilots'):
+                return isinstance(op, ast.NotIn) == pol
+        if isinstance(op, (ast.Is, ast.IsNot, ast.Eq, ast.NotEq)) and \
+                isinstance(r, ast.Constant) and r.value is None and \
+                _record_lookup(g, l, tid, same):
+            return isinstance(op, (ast.Is, ast.Eq)) == pol
+        return False
+    return not pol and _record_lookup(g, atom, tid, same)   # `if not rec:`
+
+
+def _record_lookup(g, e, tid, same):
+    """e is self._pilots.get(<key>) (no default / None), directly or through
+    a local whose only definition reaching the test is that"""
+    if isinstance(e, ast.Name):
+        defs, undef = defs_reaching(g, e.id, tid)
+        if undef or len(defs) != 1 or defs[0].kind != 'stmt':
+            return False
+        e = assigned_value(defs[0].ast, e.id)
+    return isinstance(e, ast.Call) and isinstance(e.func, ast.Attribute) and \
+        e.func.attr == 'get' and not e.keywords and \
+        is_self_attr(resolve_local(g, e.func.value, tid), '_pilots') and \
+        (len(e.args) == 1 or len(e.args) == 2 and
+         isinstance(e.args[1], ast.Constant) and e.args[1].value is None) \
+        and same(e.args[0])
+
+
+def r12_9(prog, rep, rid='R12.9'):
+    rep.rule(rid, 'the record of a pilot in self._pilots is created only for a '
+             'pilot that has none: what the scheduler learned about the pilot '
+             '(state, usage) is never reset by a command or notification',
+             minimum=1)
+    seen = set()
+    for rel, cname in (BASE, RR, BF):
+        K = prog.cls(rel, cname)
+        for mname, f in sorted(K.methods.items()):
+            if id(f.node) in seen or mname in STARTUP:
+                continue
+            seen.add(id(f.node))
+            g = cfg_of(f)
+            # setdefault creates for unknown keys only
+            for c in calls_in(f.node):
+                if isinstance(c.func, ast.Attribute) and \
+                        c.func.attr == 'setdefault' and len(c.args) == 2 and \
+                        id(c) in I.stmt_node_map(g) and is_self_attr(
+                            resolve_local(g, c.func.value,
+                                          I.stmt_node_map(g)[id(c)].id),
+                            '_pilots'):
+                    rep.saw(f)
+                    rep.ok(rid, f, '%s.%s: `%s` creates the record for an '
+                           'unknown pilot only' % (cname, mname, short(c, 50)),
+                           f.loc(c))
+            for n, node, key, ds in record_stores(f, g):
+                rep.saw(f)
+                okay = any(_unknown_key(g, a, pol, tid, key)
+                           for a, pol, tid in guard_facts(g, node.id))
+                if not okay and _in_handler(g, node):
+                    raise AnalysisError(
+                        'UNRECOGNISED-IDIOM %s: `%s` in an exception handler: '
+                        'cannot tell whether the pilot is unknown there'
+                        % (f.where, short(n, 50)))
+                rep.check(okay, rid, f, '%s.%s: `%s` is control dependent on '
+                          'the pilot having no record yet'
+                          % (cname, mname, short(n, 50)),
+                          construct='self._pilots[%s] = <new record>'
+                          % unparse(key),
+                          message='%s.%s: `%s` stores a new record for the '
+                          'pilot without a test that it has none (`%s not in '
+                          'self._pilots`): the state (and usage figure) the '
+                          'scheduler has learned for that pilot is thrown '
+                          'away, and the next state taken from a command or '
+                          'notification is accepted without the forward-only '
+                          'check - Backfilling then evaluates its eligibility '
+                          'window against a state the pilot has already left'
+                          % (cname, mname, short(n, 60), unparse(key)),
+                          loc=f.loc(n),
+                          history='state notifications p1 -> PMGR_ACTIVE, p1 '
+                          '-> FAILED arrive; then add_pilots(p1) with a pilot '
+                          'document captured while p1 was PMGR_ACTIVE (control '
+                          'and state channel are not ordered; same for remove '
+                          '/ pilot ends / re-add): the record is rebuilt, its '
+                          'state becomes PMGR_ACTIVE again and Backfilling '
+                          'binds the waiting tasks to the dead pilot')
+
+
+def _in_handler(g, node):
+    """the node lies in the body of an except clause"""
+    for h in g.nodes:
+        if h.kind == 'handler' and h.ast is not None and \
+                any(x is node.ast for s in h.ast.body for x in ast.walk(s)):
+            return True
+    return False
 
 
 # ------------------------------------------------------------------------------
@@ -857,16 +1707,13 @@ def _iterates_tasks(f, it):
 
 
 def task_loops(f, g):
-    """[(for head node, task variable)]: outermost loops whose body has an
+    """[(loop view, task variable)]: outermost loops whose body has an
     outcome for a name bound by the loop"""
     out = []
-    for h, a in g.loop_ast.items():
-        hn = g.nodes[h]
-        if hn.kind != 'for':
+    for h, hn in sorted(loop_views(g).items()):
+        if not _iterates_tasks(f, hn.iter):
             continue
-        if not _iterates_tasks(f, a.iter):
-            continue
-        for name in stores_in_target(a.target):
+        for name in hn.names:
             if any(outcomes_in(g.nodes[i], name) for i in g.loop_body[h]):
                 if not any(o.id in hn.loops and v == name for o, v in out):
                     out.append((hn, name))
@@ -938,7 +1785,7 @@ def _one_outcome(rep, rid, f, g, hn, tvar, flags, cname):
             lost.append(t)
         elif t.state[0] >= 2:
             twice.append(t)
-    hdr = 'for %s in %s' % (unparse(hn.ast.target), unparse(hn.ast.iter))
+    hdr = hn.header
     what = '%s.%s: every path through one iteration of `%s` has exactly one ' \
            'outcome for %r' % (cname, f.name, hdr, tvar)
     if lost:
@@ -1007,7 +1854,16 @@ def _truth_tests(g, name):
         a = n.ast
         if isinstance(a, ast.Name) and a.id == name:
             out.append(n.id)
-        elif isinstance(a, ast.Call) and dotted(a.func) == 'len' and \
+            continue
+        if isinstance(a, ast.Name):
+            # `k = len(name); if k:`
+            ds, ud = defs_reaching(g, a.id, n.id)
+            vs = [assigned_value(d.ast, a.id) if d.kind == 'stmt' else None
+                  for d in ds]
+            if not ud and len(vs) == 1 and vs[0] is not None and \
+                    not _touched(g, between(g, ds[0].id, n.id), name):
+                a = vs[0]
+        if isinstance(a, ast.Call) and dotted(a.func) == 'len' and \
                 len(a.args) == 1 and isinstance(a.args[0], ast.Name) and \
                 a.args[0].id == name:
             out.append(n.id)
@@ -1016,7 +1872,7 @@ def _truth_tests(g, name):
 
 def _consumed(rep, rid, f, g, hn, tvar, cname):
     conts = _local_containers(f, g, hn, tvar)
-    after = [e.dst for e in g.succ[hn.id] if e.label == 'done']
+    after = hn.after
     for name in sorted(conts):
         cons = [n.id for n in consumer_nodes(g, name)]
         skip = [(t, 'F') for t in _truth_tests(g, name)]
@@ -1059,8 +1915,9 @@ def _whole_list(rep, rid, f, g, loops, cname):
                         isinstance(c.args[0], ast.Name) and \
                         c.args[0].id == p and root_name(c.func.value) == 'self':
                     keep.append(n.id)
-        heads = [hn.id for hn, tv in loops if isinstance(hn.ast.iter, ast.Name)
-                 and hn.ast.iter.id == p]
+        heads = [hn.id for hn, tv in loops
+                 if isinstance(strip_copy(hn.iter), ast.Name)
+                 and strip_copy(hn.iter).id == p]
         if not keep or not heads:
             continue
 
@@ -1248,7 +2105,7 @@ def r12_3(prog, rep, rid='R12.3'):
             # (b) a loop iterates the pool itself and forwards some items
             g = g or cfg_of(f)
             for hn, tvar in task_loops(f, g):
-                root = hn.ast.iter
+                root = hn.iter
                 if not any(is_self_attr(x) and x.attr in POOLS
                            for x in walk(root)):
                     continue
@@ -1271,8 +2128,7 @@ def r12_3(prog, rep, rid='R12.3'):
                             and isinstance(n.ast.value, ast.Name) and \
                             n.ast.value.id in kept:
                         repl.append(n.id)
-                after = [e.dst for e in g.succ[hn.id] if e.label == 'done']
-                r = reach_noeffect(g, after, repl)
+                r = reach_noeffect(g, hn.after, repl)
                 okay = bool(repl) and g.exit.id not in r
                 rep.check(okay, rid, f, '%s.%s: after the loop over self.%s '
                           'the pool is replaced by the tasks that were not '
@@ -1349,10 +2205,10 @@ def _assigned_before(prog, rep, rid, K, f, c):
                     isinstance(cc.func.value, ast.Name) and \
                     cc.func.value.id == T and len(cc.args) == 1:
                 appends.append((n, cc.args[0]))
-    loops = [hn for hn in g.nodes if hn.kind == 'for' and
-             isinstance(hn.ast.iter, ast.Name) and hn.ast.iter.id == T and
-             isinstance(hn.ast.target, ast.Name) and
-             anodes(hn.ast.target.id)]
+    loops = [hn for h, hn in sorted(loop_views(g).items())
+             if isinstance(strip_copy(hn.iter), ast.Name) and
+             strip_copy(hn.iter).id == T and
+             isinstance(hn.target, ast.Name) and anodes(hn.target.id)]
     if appends:
         # (b1) a local list: each element was assigned before it was appended
         defs = [n for n in g.nodes if T in stores_of(n)]
@@ -1376,7 +2232,7 @@ def _assigned_before(prog, rep, rid, K, f, c):
         # (b2) a loop over the list assigns every element, before the hand-on
         okay = False
         for hn in loops:
-            via = anodes(hn.ast.target.id)
+            via = anodes(hn.target.id)
             each = hn.id not in reach_noeffect(g, [iter_start(g, hn.id)], via)
             before = hnode.id not in g.reachable(g.entry.id,
                                                  skip_nodes={hn.id})
@@ -1495,7 +2351,7 @@ def r12_5(prog, rep, rid='R12.5'):
                     and isinstance(c.func.value, ast.Name) and c.args and \
                     isinstance(c.args[0], ast.Name):
                 h = enclosing_for(g, n, c.args[0].id)
-                if h is not None and derive(g, h.ast.iter, h.id) in (
+                if h is not None and derive(g, h.iter, h.id) in (
                         'pids', 'pilots'):
                     cands.append((n, c, h))
     if not cands:
@@ -1504,12 +2360,12 @@ def r12_5(prog, rep, rid='R12.5'):
     for n, c, h in cands:
         cname = c.func.value.id
         found = {}
-        for tid, lab in guards(g, n.id, start=iter_start(g, h.id)):
-            for atom in _unchain(g.nodes[tid].ast, lab == 'T'):
-                kind, v = classify_bf_guard(prog, f, g, atom, lab == 'T', tid,
-                                            added)
+        for a, pol, tid in guard_facts(g, n.id, start=iter_start(g, h.id)):
+            for atom in _unchain(a, pol):
+                kind, v = classify_bf_guard(prog, f, g, atom, pol, tid, added)
                 if kind:
-                    found.setdefault(kind, []).append((v, atom, lab))
+                    found.setdefault(kind, []).append((v, atom,
+                                                       'T' if pol else 'F'))
         spec = [
             ('role', 'role == ADDED', 'a pilot that was removed (role REMOVED) '
              'or only seen in a state update (role None) is a candidate',
@@ -1571,23 +2427,23 @@ def r12_5(prog, rep, rid='R12.5'):
         for cr in credits:
             inner = None
             for hh in reversed(cr.loops):
-                if g.nodes[hh].kind == 'for' and \
-                        derive(g, g.nodes[hh].ast.iter, hh) in ('pids',
-                                                                'pilots'):
-                    inner = g.nodes[hh]
+                lv = loop_views(g).get(hh)
+                if lv is not None and \
+                        derive(g, lv.iter, hh) in ('pids', 'pilots'):
+                    inner = lv
                     break
             if inner is None:
                 raise AnalysisError('UNRECOGNISED-IDIOM %s: the credit `%s` is '
                                     'not inside a loop over candidate pilots'
                                     % (f.where, short(cr.ast, 40)))
             strict = False
-            for tid, lab in guards(g, cr.id, start=iter_start(g, inner.id)):
-                kind, v = classify_bf_guard(prog, f, g, g.nodes[tid].ast,
-                                            lab == 'T', tid, added)
+            for a, pol, tid in guard_facts(g, cr.id,
+                                           start=iter_start(g, inner.id)):
+                kind, v = classify_bf_guard(prog, f, g, a, pol, tid, added)
                 if kind == 'hwm' and v is ast.Lt:
                     strict = True
             removed_ok = False
-            pv = inner.ast.target.id if isinstance(inner.ast.target, ast.Name) \
+            pv = inner.target.id if isinstance(inner.target, ast.Name) \
                 else None
             for x in g.nodes:
                 if x.kind != 'stmt' or x.ast is None:
@@ -1599,10 +2455,10 @@ def r12_5(prog, rep, rid='R12.5'):
                             cc.func.value.id == cname and cc.args and \
                             isinstance(cc.args[0], ast.Name) and \
                             cc.args[0].id == pv:
-                        gs = guards(g, x.id, start=nsucc(g, cr.id)[0])
-                        kinds = [classify_bf_guard(prog, f, g, g.nodes[t].ast,
-                                                   l == 'T', t, added)
-                                 for t, l in gs]
+                        gs = guard_facts(g, x.id, start=nsucc(g, cr.id)[0])
+                        kinds = [classify_bf_guard(prog, f, g, a, pol, t,
+                                                   added)
+                                 for a, pol, t in gs]
                         if x.id in g.reachable(nsucc(g, cr.id)) and \
                                 all(k == 'hwm' and v is ast.GtE
                                     for k, v in kinds) and kinds:
@@ -1661,8 +2517,8 @@ def _usage_updates(prog, f, op):
                   and isinstance(n.ctx, ast.Load)}
             loopvars = set()
             for h in x.loops:
-                if g.nodes[h].kind == 'for':
-                    loopvars |= set(stores_in_target(g.nodes[h].ast.target))
+                if h in loop_views(g):
+                    loopvars |= set(loop_views(g)[h].names)
             out.append((x, _canon(val, tv & loopvars), g))
     return out
 
@@ -1697,20 +2553,19 @@ def r12_6(prog, rep, rid='R12.6'):
         # once per uid
         h = None
         for hh in reversed(d.loops):
-            if g.nodes[hh].kind == 'for':
-                h = g.nodes[hh]
+            if hh in loop_views(g):
+                h = loop_views(g)[hh]
                 break
         if h is None:
             raise AnalysisError('UNRECOGNISED-IDIOM %s: debit outside of a '
                                 'loop over tasks' % fu.where)
         start = iter_start(g, h.id)
         tested = None
-        for tid, lab in guards(g, d.id, start=start):
-            a = g.nodes[tid].ast
+        for a, pol, tid in guard_facts(g, d.id, start=start):
             if isinstance(a, ast.Compare) and len(a.ops) == 1 and \
                     isinstance(a.ops[0], (ast.In, ast.NotIn)) and \
                     info_field(resolve_local(g, a.comparators[0], tid), 'done'):
-                fresh = isinstance(a.ops[0], ast.NotIn) == (lab == 'T')
+                fresh = isinstance(a.ops[0], ast.NotIn) == pol
                 tested = (a, fresh)
         apps = []
         for x in g.nodes:
@@ -1757,6 +2612,62 @@ def _is_len_pids(e):
         len(e.args) == 1 and is_self_attr(e.args[0], '_pids')
 
 
+def _may_touch_pids(name, seen=None):
+    """a method of the scheduler classes with this name stores through
+    self._pids, directly or in a self-method it calls (by name; methods the
+    classes inherit from the component framework do not know the list)"""
+    seen = set() if seen is None else seen
+    if name in seen:
+        return False
+    seen.add(name)
+    for f, concretes in _CTX['funcs'].values():
+        if f.name != name:
+            continue
+        if _pids_writes(f):
+            return True
+        for c in calls_in(f.node, nested=True):
+            if isinstance(c.func, ast.Attribute) and (
+                    isinstance(c.func.value, ast.Name) and
+                    c.func.value.id == 'self' or
+                    isinstance(c.func.value, ast.Call) and
+                    dotted(c.func.value.func) == 'super') and \
+                    _may_touch_pids(c.func.attr, seen):
+                return True
+    return False
+
+
+def _calm(g, d, at):
+    """nothing on a path between node d and node `at` can change self._pids:
+    no store through it, no self-method that (transitively) stores through
+    it, no call that is handed the list or the scheduler itself"""
+    def is_pids(e, nid):
+        e = resolve_local(g, e, nid)
+        return is_self_attr(e, '_pids') or \
+            isinstance(e, ast.Name) and e.id == 'self'
+    for m in between(g, d, at):
+        n = g.nodes[m]
+        if m in attr_writes(g, '_pids'):
+            return False
+        for c in I.stmt_calls(n):
+            if is_quiet_call(c) or dotted(c.func) in PURE:
+                continue
+            fn = c.func
+            if isinstance(fn, ast.Attribute) and \
+                    isinstance(fn.value, ast.Name) and fn.value.id == 'self':
+                if _may_touch_pids(fn.attr):
+                    return False
+            elif isinstance(fn, ast.Attribute) and (
+                    root_name(fn.value) == 'self' or is_pids(fn.value, m)):
+                return False        # self._pids.remove(..), self._x.call()
+            if any(is_pids(a, m) for a in list(c.args) +
+                   [k.value for k in c.keywords]):
+                return False
+        if n.kind == 'stmt' and isinstance(n.ast, ast.AugAssign) and \
+                is_pids(n.ast.target, m):
+            return False
+    return True
+
+
 def r12_7(prog, rep, rid='R12.7'):
     rep.rule(rid, 'RoundRobin: the index into self._pids is wrapped before it '
              'is used and advanced exactly once per assignment', minimum=2)
@@ -1764,58 +2675,135 @@ def r12_7(prog, rep, rid='R12.7'):
     rep.saw(f)
     g = cfg_of(f)
     smap = I.stmt_node_map(g)
+
+    def hoisted(v, d, at):
+        # a length / remainder kept in a local is as good as the expression
+        # itself while nothing can change self._pids
+        return isinstance(v, ast.Call) and dotted(v.func) == 'len' and \
+            len(v.args) == 1 and _calm(g, d, at)
+
+    def cn(e, at):
+        return resolve_local(g, e, at, allow=hoisted)
+
+    def is_len_pids(e):
+        return isinstance(e, ast.Call) and dotted(e.func) == 'len' and \
+            len(e.args) == 1 and is_self_attr(e.args[0], '_pids')
+
+    def is_mod_len(e):
+        return isinstance(e, ast.BinOp) and isinstance(e.op, ast.Mod) and \
+            is_len_pids(e.right)
+
     uses = []
     for n in walk(f.node):
-        if isinstance(n, ast.Subscript) and is_self_attr(n.value, '_pids') and \
-                isinstance(n.ctx, ast.Load) and \
-                any(_is_idx(x) for x in walk(n.slice)):
-            uses.append(n)
+        if isinstance(n, ast.Subscript) and isinstance(n.ctx, ast.Load) and \
+                id(n) in smap and not isinstance(n.slice, ast.Slice):
+            at = smap[id(n)].id
+            if is_self_attr(cn(n.value, at), '_pids'):
+                sl = cn(n.slice, at)
+                if any(_is_idx(x) for x in walk(sl)):
+                    uses.append((n, sl))
     if not uses:
         raise AnalysisError('UNRECOGNISED-IDIOM %s: no self._pids[self._idx]'
                             % f.where)
     writes = [smap[id(st)] for k, t, st in I.stores(f.node)
               if _is_idx(t) and id(st) in smap]
-    for u in uses:
-        un = smap[id(u)]
-        s = u.slice
-        okay, why = False, ''
-        if isinstance(s, ast.BinOp) and isinstance(s.op, ast.Mod) and \
-                _is_len_pids(s.right):
-            okay = True
-        elif _is_idx(s):
-            wraps = []
-            for t in g.nodes:
-                if t.kind != 'test' or not isinstance(t.ast, ast.Compare) or \
-                        len(t.ast.ops) != 1:
-                    continue
-                l, r, op = t.ast.left, t.ast.comparators[0], type(t.ast.ops[0])
-                if _is_len_pids(l) and _is_idx(r):
-                    l, r, op = r, l, _flip(t.ast.ops[0])
-                if _is_idx(l) and _is_len_pids(r) and op is ast.GtE:
+    # what a store does to the index: reset (0), norm (.. % len(self._pids)),
+    # inc (+ 1)
+    resets, norms, incs = set(), set(), set()
+    for x in writes:
+        a = x.ast
+        if isinstance(a, ast.AugAssign):
+            v = cn(a.value, x.id)
+            if isinstance(a.op, ast.Add) and isinstance(v, ast.Constant) and \
+                    v.value == 1:
+                incs.add(x.id)
+            elif isinstance(a.op, ast.Mod) and is_len_pids(v):
+                norms.add(x.id)
+            else:
+                raise AnalysisError('UNRECOGNISED-IDIOM %s: `%s`'
+                                    % (f.where, short(a, 40)))
+        elif isinstance(a, ast.Assign):
+            v = cn(a.value, x.id)
+            if isinstance(v, ast.Constant) and v.value == 0:
+                resets.add(x.id)
+            if is_mod_len(v):
+                norms.add(x.id)
+            for b in walk(v):
+                if isinstance(b, ast.BinOp) and isinstance(b.op, ast.Add):
+                    for one, e in ((b.right, b.left), (b.left, b.right)):
+                        if isinstance(one, ast.Constant) and one.value == 1 \
+                                and (_is_idx(e) or is_mod_len(e) and
+                                     _is_idx(e.left)):
+                            incs.add(x.id)
+    # wrap tests: self._idx >= len(self._pids)
+    wraps, odd = [], []
+    for t in g.nodes:
+        if t.kind != 'test':
+            continue
+        ta = cn(test_expr(g, t), t.id)
+        if not any(_is_idx(x) for x in walk(ta)):
+            continue
+        if isinstance(ta, ast.Compare) and len(ta.ops) == 1:
+            l, r, op = ta.left, ta.comparators[0], type(ta.ops[0])
+            if is_len_pids(l) and _is_idx(r):
+                l, r, op = r, l, _flip(ta.ops[0])
+            if _is_idx(l) and is_len_pids(r):
+                if op is ast.GtE:
                     wraps.append(t)
-            start = iter_start(g, un.loops[-1]) if un.loops else g.entry.id
+                continue                # a wrong test of the index: no wrap
+        odd.append(t)
+    for u, s in uses:
+        un = smap[id(u)]
+        okay, why = False, ''
+        start = iter_start(g, un.loops[-1]) if un.loops else g.entry.id
+        if is_mod_len(s):
+            okay = True
+            if not isinstance(u.slice, ast.BinOp):
+                # the remainder was put into a local: self._pids must not
+                # change between the two
+                d = [x for x in defs_reaching(g, u.slice.id, un.id)[0]] \
+                    if isinstance(u.slice, ast.Name) else []
+                if len(d) != 1 or not _calm(g, d[0].id, un.id):
+                    raise AnalysisError(
+                        'UNRECOGNISED-IDIOM %s: `%s`: the index is computed '
+                        'ahead of its use and self._pids may change in '
+                        'between' % (f.where, short(u, 40)))
+        elif _is_idx(s):
+            # stores after which the index may be out of range
+            others = [x for x in writes if x.id not in resets | norms]
             for w in wraps:
-                resets = [x.id for x in writes if isinstance(x.ast, ast.Assign)
-                          and isinstance(x.ast.value, ast.Constant) and
-                          x.ast.value.value == 0]
                 tsucc = [e.dst for e in g.succ[w.id] if e.label == 'T']
+                fix = resets | norms
                 c1 = un.id not in g.reachable(start, skip_nodes={w.id})
-                c2 = bool(resets) and bool(tsucc) and un.id not in \
-                    reach_noeffect(g, tsucc, resets)
-                others = [x for x in writes if x.id not in resets]
+                # on the true arm the use is reached only through a reset
+                # (or through the test again)
+                c2 = bool(fix) and bool(tsucc) and un.id not in \
+                    reach_noeffect(g, tsucc, fix, stop={w.id})
                 c3 = all(un.id not in g.reachable(nsucc(g, x.id),
                                                   skip_nodes={w.id})
                          for x in others)
                 if c1 and c2 and c3:
                     okay = True
+            for m in norms:
+                c1 = un.id not in reach_noeffect(g, [start], [m])
+                c3 = all(un.id not in reach_noeffect(g, nsucc(g, x.id), [m])
+                         for x in others)
+                if c1 and c3:
+                    okay = True
             why = 'no test `self._idx >= len(self._pids)` with a reset to 0 ' \
-                  'lies on every path to the use (after the last change of ' \
-                  'the index)'
+                  '(and no `% len(self._pids)`) lies on every path to the ' \
+                  'use (after the last change of the index)'
+            if not okay and odd:
+                raise AnalysisError(
+                    'UNRECOGNISED-IDIOM %s: `%s` is not preceded by a wrap '
+                    'the recogniser knows, but the index is tested by `%s`'
+                    % (f.where, short(u, 40), short(odd[0].ast, 50)))
         else:
             raise AnalysisError('UNRECOGNISED-IDIOM %s: index expression `%s`'
                                 % (f.where, short(s, 40)))
         rep.check(okay, rid, f, 'RoundRobin: `%s` is preceded by the wrap of '
-                  'self._idx on every path' % short(u, 40), construct=u,
+                  'self._idx on every path' % short(u, 40),
+                  construct='self._pids[self._idx]' if _is_idx(s) else u,
                   message='RoundRobin._schedule_tasks: `%s` is used although %s'
                   % (short(u, 40), why), loc=f.loc(u),
                   history='three pilots, self._idx == 3 after a batch; two '
@@ -1828,20 +2816,6 @@ def r12_7(prog, rep, rid='R12.7'):
                                 'the task loop' % f.where)
         head = un.loops[-1]
         start, stop, stop_edge = loop_slice(g, head)
-        incs = set()
-        for x in writes:
-            a = x.ast
-            if isinstance(a, ast.AugAssign) and isinstance(a.op, ast.Add) and \
-                    isinstance(a.value, ast.Constant) and a.value.value == 1:
-                incs.add(x.id)
-            elif isinstance(a, ast.Assign) and any(
-                    isinstance(b, ast.BinOp) and isinstance(b.op, ast.Add) and
-                    _is_idx(b.left) and isinstance(b.right, ast.Constant) and
-                    b.right.value == 1 for b in walk(a.value)):
-                incs.add(x.id)
-            elif isinstance(a, ast.AugAssign):
-                raise AnalysisError('UNRECOGNISED-IDIOM %s: `%s`'
-                                    % (f.where, short(a, 40)))
         asg = {smap[id(c)].id for c in assign_calls(f) if id(c) in smap}
 
         def transfer(node, edge, st):
@@ -1883,7 +2857,9 @@ def run(prog, rep, tier):
         'backfilling candidates are filtered by role, state window and '
         'high-water mark, full pilots leave the candidates; usage is credited '
         'and debited by the same expression, once per task; the round-robin '
-        'index is wrapped before use and advanced once per assignment.')
+        'index is wrapped before use and advanced once per assignment; a '
+        'pilot record is created only for a pilot that has none (what the '
+        'scheduler learned about a pilot is never reset).')
     rep.undecided = ('interleavings of control messages, state notifications '
         'and the work callback (the three callbacks take different locks); '
         'whether task state notifications of early-bound tasks are consistent '
@@ -1897,19 +2873,31 @@ def run(prog, rep, tier):
         'assigned only True/False are tracked exactly',
         'self._wait_pool and self._early are the only persistent pools of '
         'waiting tasks in the tmgr scheduler classes',
+        'a local bound to a container attribute which only the start-up '
+        'methods assign (self._pids, self._pilots) denotes that attribute; a '
+        'method consisting of `return <expr>` is read as that expression; a '
+        'test computed ahead into a local is read as the test if nothing it '
+        'reads can change in between (else the analysis stops)',
+        'a while loop that pops one element per iteration from a private '
+        'copy, or walks an index from 0 to len(X) with exactly one increment '
+        'per iteration, and `for i in range(len(X)): t = X[i]` are read as '
+        '`for t in X`; any other while loop over tasks stops the analysis',
+        'calls on self._log / self._prof / self._rep have no effect on the '
+        'property',
     ]
-    r12_1(prog, rep)
-    r12_2(prog, rep)
-    r12_3(prog, rep)
-    n = r12_4(prog, rep)
-    if n < 5:
-        raise AnalysisError('R12.4: only %d hand-on sites to '
-                            'TMGR_STAGING_INPUT_PENDING found (expected >= 5)'
-                            % n)
-    r12_5(prog, rep)
-    r12_6(prog, rep)
-    r12_7(prog, rep)
-    r12_8(prog, rep)
+    _setup(prog)
+
+    def sites(prog, rep):
+        n = r12_4(prog, rep)
+        if n < 5:
+            raise AnalysisError('R12.4: only %d hand-on sites to '
+                                'TMGR_STAGING_INPUT_PENDING found (expected '
+                                '>= 5)' % n)
+    # a rule that does not know the shape of its anchors stops the analysis
+    # (exit 2) unless another rule has a finding (main._try)
+    for rule in (r12_1, r12_2, r12_3, sites, r12_5, r12_6, r12_7, r12_8,
+                 r12_9):
+        rep.attempt(rule, prog, rep)
     if tier == 'thorough':
         rep.rule('R12.4s', 'sweep of R12.4 over every class of the package that '
                  'hands on to TMGR_STAGING_INPUT_PENDING', minimum=0)
@@ -2122,4 +3110,269 @@ SILENT = [
         (_B, "                if pid:\n                    # this task is bound already (it is early-bound), so we\n",
              "                if not pid:\n                    to_schedule.append(task)\n                    continue\n\n                if True:\n                    # this task is bound already (it is early-bound), so we\n"),
         (_B, "                else:\n                    to_schedule.append(task)\n", "")]),
+]
+
+# ------------------------------------------------------------------------------
+# shapes of the two _schedule_tasks bodies (corpus refactoring r3 and kin):
+# try/except/else, attributes cached in locals, while loops, modulo index,
+# getter methods, logging noise - and the same mistakes made in those shapes
+#
+_R_GUARD = "            if not self._pids:\n\n                self._log.debug('no pilots')\n"
+_R_LISTS = "            tasks_ok = list()\n            tasks_fail = list()\n"
+_R_FOR   = "            for task in tasks:\n\n                try:\n"
+_R_WRAP  = "                    if self._idx >= len(self._pids):\n                        self._idx = 0\n\n"
+_R_LOOK  = "                    pid   = self._pids[self._idx]\n                    pilot = self._pilots[pid]['pilot']\n"
+_R_INC   = "                    self._idx += 1\n\n"
+_R_ASG   = "                    self._assign_pilot(task, pilot)\n\n                    tasks_ok.append(task)\n\n"
+_R_EXC   = "                    tasks_fail.append(task)\n"
+_R_ADV   = ("            self._log.debug('failed: %d, ok: %d', len(tasks_fail), len(tasks_ok))\n"
+            "            self.advance(tasks_fail, rps.FAILED, publish=True, push=False)\n"
+            "            self.advance(tasks_ok,   rps.TMGR_STAGING_INPUT_PENDING,\n")
+_R_END   = "                         publish=True, push=True)\n\n\n# ------------------------------------------------------------------------------\n\n"
+_R_UPD   = "        # FIXME: we don't react on pilot state changes right now\n        pass\n"
+_R_METH  = "                         publish=True, push=True)\n\n\n    # --------------------------------------------------------------------------\n    #\n"
+_R_TAIL  = "\n\n# ------------------------------------------------------------------------------\n\n"
+
+_F_GUARD = "            # check if we have pilots to schedule over\n            if not self._pids:\n                return\n"
+_F_FOR1  = "            for pid in self._pids:\n\n"
+_F_READ  = ("                info  = self._pilots[pid]['info']\n"
+            "                state = self._pilots[pid]['state']\n"
+            "                role  = self._pilots[pid]['role']\n")
+_F_FOR2  = "            for uid, task in self._wait_pool.items():\n"
+_F_FOR3  = "                for pid in list(pids):\n\n"
+_F_INFO  = "                    info = self._pilots[pid]['info']\n"
+_F_PILOT = "                        pilot = self._pilots[pid]['pilot']\n"
+_F_CALL  = "                        self._assign_pilot(task, pilot)\n"
+_F_ROLE  = "                if role != ADDED:\n                    continue\n\n"
+_F_FULL  = "                        if info['used'] >= info['hwm']:\n                            pids.remove(pid)\n"
+_F_KEEP  = "                    self._log.debug(' =!= sch task  %s', uid)\n                    unscheduled[uid] = task\n                    continue\n"
+_F_DEF   = "    def _schedule_tasks(self):\n"
+
+_S_R3 = [
+    (_R, _R_GUARD, "            rr_pids = self._pids\n            known   = self._pilots\n\n            if not rr_pids:\n\n                self._log.debug('no pilots')\n"),
+    (_R, _R_LISTS, "            bound     = list()\n            not_bound = list()\n"),
+    (_R, _R_WRAP, "                    if self._idx >= len(rr_pids):\n                        self._idx = 0\n\n"),
+    (_R, _R_LOOK, "                    target = known[rr_pids[self._idx]]['pilot']\n"),
+    (_R, _R_ASG, "                    self._assign_pilot(task, target)\n\n"),
+    (_R, _R_EXC, "                    not_bound.append(task)\n\n                else:\n                    bound.append(task)\n"),
+    (_R, _R_ADV, "            self._log.debug('failed: %d, ok: %d', len(not_bound), len(bound))\n"
+                 "            self.advance(not_bound, rps.FAILED, publish=True, push=False)\n"
+                 "            self.advance(bound,     rps.TMGR_STAGING_INPUT_PENDING,\n")]
+_S_ELSE = [
+    (_R, _R_ASG, "                    self._assign_pilot(task, pilot)\n\n"),
+    (_R, _R_EXC, _R_EXC + "\n                else:\n                    tasks_ok.append(task)\n")]
+_S_RPOP = [
+    (_R, _R_FOR, "            todo = list(tasks)\n            while todo:\n\n                task = todo.pop(0)\n\n                try:\n")]
+_S_RMODL = [
+    (_R, _R_WRAP, ""),
+    (_R, _R_LOOK, "                    idx   = self._idx % len(self._pids)\n                    pid   = self._pids[idx]\n                    pilot = self._pilots[pid]['pilot']\n"),
+    (_R, _R_INC, "                    self._idx = idx + 1\n\n")]
+_S_RGET = [
+    (_R, _R_LOOK, "                    pid   = self._pids[self._idx]\n                    pilot = self._pilot_of(pid)\n"),
+    (_R, _R_END, _R_METH + "    def _pilot_of(self, pid):\n        '''pilot object of a known pilot'''\n\n        return self._pilots[pid]['pilot']" + _R_TAIL)]
+_S_FCACHE = [
+    (_F, _F_GUARD, "            active = self._pids\n            known  = self._pilots\n\n            # check if we have pilots to schedule over\n            if not active:\n                return\n"),
+    (_F, _F_FOR1, "            for pid in active:\n\n"),
+    (_F, _F_READ, "                entry = known[pid]\n                info  = entry['info']\n                state = entry['state']\n                role  = entry['role']\n"),
+    (_F, _F_INFO, "                    info = known[pid]['info']\n"),
+    (_F, _F_PILOT, ""),
+    (_F, _F_CALL, "                        self._assign_pilot(task, known[pid]['pilot'])\n")]
+_S_FWHILE = [
+    (_F, _F_FOR1, "            k = 0\n            while k < len(self._pids):\n\n                pid = self._pids[k]\n                k  += 1\n\n"),
+    (_F, _F_FOR2, "            waiting = list(self._wait_pool.items())\n            while waiting:\n\n                uid, task = waiting.pop(0)\n"),
+    (_F, _F_FOR3, "                cands = list(pids)\n                while cands:\n\n                    pid = cands.pop(0)\n\n")]
+_S_FGET = [
+    (_F, _F_READ, "                info  = self._entry(pid, 'info')\n                state = self._entry(pid, 'state')\n                role  = self._entry(pid, 'role')\n"),
+    (_F, _F_INFO, "                    info = self._entry(pid, 'info')\n"),
+    (_F, _F_PILOT, "                        pilot = self._entry(pid, 'pilot')\n"),
+    (_F, _F_DEF, "    def _entry(self, pid, key):\n\n        return self._pilots[pid][key]\n\n\n    # --------------------------------------------------------------------------\n    #\n" + _F_DEF)]
+_S_HOIST = [
+    (_R, _R_FOR, "            n_pids = len(self._pids)\n" + _R_FOR),
+    (_R, _R_WRAP, "                    if self._idx >= n_pids:\n                        self._idx = 0\n\n")]
+
+
+def _swap(edits, old, new):
+    """the variant with the edit of site `old` replaced"""
+    assert any(o == old for _, o, _ in edits)
+    return [(rel, o, new if o == old else n) for rel, o, n in edits]
+
+
+SILENT += [
+    dict(name='corpus r3: RoundRobin with cached attributes, folded lookup, try/else, renamed locals',
+         edits=_S_R3),
+    dict(name='RoundRobin: success bookkeeping in the else clause of the try', edits=_S_ELSE),
+    dict(name='RoundRobin: self._pids / self._pilots cached by a tuple assignment', edits=[
+        (_R, _R_GUARD, "            pids, pilots = self._pids, self._pilots\n\n            if not pids:\n\n                self._log.debug('no pilots')\n"),
+        (_R, _R_WRAP, "                    if self._idx >= len(pids):\n                        self._idx = 0\n\n"),
+        (_R, _R_LOOK, "                    pid   = pids[self._idx]\n                    pilot = pilots[pid]['pilot']\n")]),
+    dict(name='RoundRobin: while loop popping from a copy of the batch', edits=_S_RPOP),
+    dict(name='RoundRobin: index-driven while loop over the batch, try/else', edits=[
+        (_R, _R_FOR, "            n = 0\n            while n < len(tasks):\n\n                task = tasks[n]\n                n   += 1\n\n                try:\n")] + _S_ELSE),
+    dict(name='RoundRobin: for over range(len(tasks))', edits=[
+        (_R, _R_FOR, "            for n in range(len(tasks)):\n\n                task = tasks[n]\n\n                try:\n")]),
+    dict(name='RoundRobin: index wrapped by an in-place modulo before the use', edits=[
+        (_R, _R_WRAP, "                    self._idx %= len(self._pids)\n\n")]),
+    dict(name='RoundRobin: index taken modulo into a local, stored back incremented', edits=_S_RMODL),
+    dict(name='RoundRobin: pilot object looked up through a getter method', edits=_S_RGET),
+    dict(name='RoundRobin: next pid handed out by a helper method (wrap, use, advance)', edits=[
+        (_R, _R_WRAP, ""),
+        (_R, _R_INC, ""),
+        (_R, _R_LOOK, "                    pid   = self._next_pid()\n                    pilot = self._pilots[pid]['pilot']\n"),
+        (_R, _R_END, _R_METH + "    def _next_pid(self):\n\n        if self._idx >= len(self._pids):\n            self._idx = 0\n\n        pid = self._pids[self._idx]\n        self._idx += 1\n\n        return pid" + _R_TAIL)],
+         note='decided on the normalised view (the engine inlines the new helper)'),
+    dict(name='RoundRobin: length of self._pids hoisted next to the wrap test', edits=[
+        (_R, _R_WRAP, "                    n_pids = len(self._pids)\n                    if self._idx >= n_pids:\n                        self._idx = 0\n\n")]),
+    dict(name='RoundRobin: length of self._pids hoisted out of the task loop', edits=_S_HOIST,
+         note='nothing called inside the loop stores through self._pids'),
+    dict(name='RoundRobin: log / profile lines inside the wrap arm and between wrap and use', edits=[
+        (_R, _R_WRAP, "                    if self._idx >= len(self._pids):\n                        self._log.debug('wrap around')\n                        self._idx = 0\n                        self._prof.prof('rr_wrap', uid=task['uid'])\n\n                    self._log.debug('slot %d of %d', self._idx, len(self._pids))\n\n")]),
+    dict(name='RoundRobin.remove_pilots filters self._pids once per removed pid', edits=[
+        (_R, "                self._pids.remove(pid)\n", "                self._pids = [p for p in self._pids if p != pid]\n")]),
+    dict(name='RoundRobin.add_pilots extends the list through a local alias', edits=[
+        (_R, "            self._pids += pids\n", "            known = self._pids\n            known += pids\n")]),
+    dict(name='Backfilling: self._pids / self._pilots cached in locals, pilot lookup folded', edits=_S_FCACHE),
+    dict(name='Backfilling: while loops instead of for (index over self._pids, pop from copies)', edits=_S_FWHILE),
+    dict(name='Backfilling: pilot entry fields read through a getter method', edits=_S_FGET),
+]
+
+MUTATIONS += [
+    dict(name='R12.7 r3 shape: index not wrapped', rules=('R12.7',), edits=_swap(_S_R3, _R_WRAP, "")),
+    dict(name='R12.1 r3 shape: pilot drawn from the table of all known pilots', rules=('R12.1',),
+         edits=_swap(_S_R3, _R_LOOK, "                    target = known[list(known)[self._idx]]['pilot']\n")),
+    dict(name='R12.2 try/else shape: ok list appended after the try statement', rules=('R12.2',), edits=[
+        (_R, _R_ASG, "                    self._assign_pilot(task, pilot)\n\n"),
+        (_R, _R_EXC, _R_EXC + "\n                tasks_ok.append(task)\n")],
+         note='a task whose assignment raised is reported FAILED and forwarded'),
+    dict(name='R12.2 while/pop shape: failed tasks not reported', rules=('R12.2',),
+         edits=_S_RPOP + [(_R, "            self.advance(tasks_fail, rps.FAILED, publish=True, push=False)\n", "")]),
+    dict(name='R12.4 while/pop shape: task recorded as ok before it is assigned', rules=('R12.4',),
+         edits=_S_RPOP + [(_R, "                    # we assign the task to the pilot.\n                    self._assign_pilot(task, pilot)\n\n                    tasks_ok.append(task)\n",
+                           "                    tasks_ok.append(task)\n\n                    # we assign the task to the pilot.\n                    self._assign_pilot(task, pilot)\n")]),
+    dict(name='R12.7 modulo-local shape: index not stored back', rules=('R12.7',), edits=_swap(_S_RMODL, _R_INC, "")),
+    dict(name='R12.7 index reduced modulo the length only after the use', rules=('R12.7',), edits=[
+        (_R, _R_WRAP, ""),
+        (_R, _R_INC, "                    self._idx = (self._idx + 1) % len(self._pids)\n\n")],
+         note='pilots removed between two batches: the first use of the next batch is out of range'),
+    dict(name='R12.7 in-place modulo only after the use', rules=('R12.7',), edits=[
+        (_R, _R_WRAP, ""),
+        (_R, _R_INC, "                    self._idx += 1\n                    self._idx %= len(self._pids)\n\n")]),
+    dict(name='R12.1 getter shape: pid drawn from the keys of all known pilots', rules=('R12.1',),
+         edits=_swap(_S_RGET, _R_LOOK, "                    pid   = list(self._pilots)[self._idx]\n                    pilot = self._pilot_of(pid)\n")),
+    dict(name='R12.5 getter shape: role test dropped', rules=('R12.5',), edits=_S_FGET + [(_F, _F_ROLE, "")]),
+    dict(name='R12.1 cached shape: Backfilling loops over all known pilots, no role test', rules=('R12.1', 'R12.5'),
+         edits=_swap(_S_FCACHE, _F_FOR1, "            for pid in known:\n\n") + [(_F, _F_ROLE, "")]),
+    dict(name='R12.5 cached shape: full pilot not removed from the candidates', rules=('R12.5',),
+         edits=_S_FCACHE + [(_F, _F_FULL, "")]),
+    dict(name='R12.2 while shape: Backfilling breaks out instead of keeping the task', rules=('R12.2',),
+         edits=_S_FWHILE + [(_F, _F_KEEP, "                    self._log.debug(' =!= sch task  %s', uid)\n                    break\n")]),
+    dict(name='R12.5 while shape: full pilot not removed from the candidates', rules=('R12.5',),
+         edits=_S_FWHILE + [(_F, _F_FULL, "")]),
+    dict(name='R12.3 while shape: Backfilling keeps scheduled tasks in the wait pool', rules=('R12.3',),
+         edits=_S_FWHILE + [(_F, "            self._wait_pool = unscheduled\n", "")]),
+    dict(name='R12.1 RoundRobin.update_pilots re-adds pilots through an alias of self._pids', rules=('R12.1',), edits=[
+        (_R, _R_UPD, "        known = self._pids\n        known += [pid for pid in pids if pid not in known]\n")]),
+    dict(name='R12.1 RoundRobin.update_pilots appends to an alias of self._pids', rules=('R12.1',), edits=[
+        (_R, _R_UPD, "        known = self._pids\n        for pid in pids:\n            if pid not in known:\n                known.append(pid)\n")]),
+]
+
+
+# ------------------------------------------------------------------------------
+# R12.9: creation of pilot records (corpus d, e; refactoring r6)
+#
+_B_UPD = ("                if pid not in self._pilots:\n"
+          "                    self._pilots[pid] = {'role'  : None,\n"
+          "                                         'state' : None,\n"
+          "                                         'pilot' : None,\n"
+          "                                         'info'  : dict()  # scheduler private info\n"
+          "                                         }\n")
+_B_ADD = ("                    if pid in self._pilots:\n"
+          "                        if self._pilots[pid]['role'] == ADDED:\n"
+          "                            raise ValueError('pilot already added (%s)' % pid)\n"
+          "                    else:\n"
+          "                        self._pilots[pid] = {'role'  : None,\n"
+          "                                             'state' : None,\n"
+          "                                             'pilot' : None,\n"
+          "                                             'info'  : dict()\n"
+          "                                            }\n"
+          "\n"
+          "                    self._pilots[pid]['role']  = ADDED\n"
+          "                    self._pilots[pid]['pilot'] = pilot\n")
+_B_HELP = ("    # --------------------------------------------------------------------------\n"
+           "    #\n"
+           "    def _update_pilot_states(self, pilots):\n")
+_B_REC = ("    # --------------------------------------------------------------------------\n"
+          "    #\n"
+          "    def _get_pilot_record(self, pid):\n\n"
+          "        record = self._pilots.get(pid)\n"
+          "        if record is None:\n"
+          "            record = {'role'  : None,\n"
+          "                      'state' : None,\n"
+          "                      'pilot' : None,\n"
+          "                      'info'  : dict()}\n"
+          "            self._pilots[pid] = record\n\n"
+          "        return record\n\n\n")
+_B_R6ADD = ("                    record = self._get_pilot_record(pid)\n\n"
+            "                    if record['role'] == ADDED:\n"
+            "                        raise ValueError('pilot already added (%s)' % pid)\n\n")
+_S_R6 = [
+    (_B, _B_HELP, _B_REC + _B_HELP),
+    (_B, _B_UPD, "                record = self._get_pilot_record(pid)\n"),
+    (_B, "                current = self._pilots[pid]['state']\n", "                current = record['state']\n"),
+    (_B, "                    self._pilots[pid]['state'] = target\n", "                    record['state'] = target\n"),
+    (_B, _B_ADD, _B_R6ADD + "                    record['role']  = ADDED\n"
+                            "                    record['pilot'] = pilot\n")]
+
+SILENT += [
+    dict(name='corpus r6: pilot records handed out by a get-or-create helper', edits=_S_R6),
+    dict(name='control_cb: record created under `self._pilots.get(pid) is None`, early raise', edits=[
+        (_B, _B_ADD, "                    known = self._pilots.get(pid)\n"
+                     "                    if known is None:\n"
+                     "                        known = dict(role=None, state=None, pilot=None, info=dict())\n"
+                     "                        self._pilots[pid] = known\n"
+                     "                    elif known['role'] == ADDED:\n"
+                     "                        raise ValueError('pilot already added (%s)' % pid)\n\n"
+                     "                    known['role']  = ADDED\n"
+                     "                    known['pilot'] = pilot\n")]),
+    dict(name='_update_pilot_states: record created by setdefault', edits=[
+        (_B, _B_UPD, "                self._pilots.setdefault(pid, {'role': None, 'state': None,\n"
+                     "                                              'pilot': None, 'info': dict()})\n")]),
+    dict(name='_update_pilot_states: record looked up first, created if missing', edits=[
+        (_B, _B_UPD, "                entry = self._pilots.get(pid)\n"
+                     "                if not entry:\n"
+                     "                    entry = {'role': None, 'state': None, 'pilot': None,\n"
+                     "                             'info': dict()}\n"
+                     "                    self._pilots[pid] = entry\n")]),
+    dict(name='control_cb: unknown pilot gets its record with role and pilot already filled in', edits=[
+        (_B, _B_ADD, "                    if pid not in self._pilots:\n"
+                     "                        self._pilots[pid] = {'role'  : ADDED,\n"
+                     "                                             'state' : None,\n"
+                     "                                             'pilot' : pilot,\n"
+                     "                                             'info'  : dict()}\n"
+                     "                        continue\n\n"
+                     "                    if self._pilots[pid]['role'] == ADDED:\n"
+                     "                        raise ValueError('pilot already added (%s)' % pid)\n\n"
+                     "                    self._pilots[pid]['role']  = ADDED\n"
+                     "                    self._pilots[pid]['pilot'] = pilot\n")],
+         note='the log line is skipped for new pilots: no effect on the property'),
+]
+
+MUTATIONS += [
+    dict(name='R12.9 corpus e: add_pilots always rebuilds the record (state forgotten)', rules=('R12.9',), edits=[
+        (_B, _B_ADD, "                    known = self._pilots.get(pid)\n"
+                     "                    if known and known['role'] == ADDED:\n"
+                     "                        raise ValueError('pilot already added (%s)' % pid)\n\n"
+                     "                    self._pilots[pid] = {'role'  : ADDED,\n"
+                     "                                         'state' : None,\n"
+                     "                                         'pilot' : pilot,\n"
+                     "                                         'info'  : dict()\n"
+                     "                                        }\n")]),
+    dict(name='R12.9 _update_pilot_states resets the record of every notified pilot', rules=('R12.9',), edits=[
+        (_B, _B_UPD, _B_UPD.replace("                if pid not in self._pilots:\n", "                if True:\n"))],
+         note='the sibling site: every state notification forgets role, pilot object and usage'),
+    dict(name='R12.9 creation test with the wrong polarity', rules=('R12.9',), edits=[
+        (_B, _B_UPD, _B_UPD.replace("if pid not in self._pilots:", "if pid in self._pilots:"))]),
+    dict(name='R12.9 r6 shape: the helper re-creates the record whenever its role is not ADDED', rules=('R12.9',),
+         edits=_swap(_S_R6, _B_HELP, _B_REC.replace("        if record is None:\n", "        if record is None or record['role'] != ADDED:\n") + _B_HELP)),
+    dict(name='R12.1 r6 shape: role not stored for added pilots', rules=('R12.1',),
+         edits=_swap(_S_R6, _B_ADD, _B_R6ADD + "                    record['pilot'] = pilot\n")),
 ]
